@@ -80,11 +80,11 @@ func drawSchema(rt *rapid.T, name string, cfg schemaCfg) model.Schema {
 
 // tgen generates items and requests for one table.
 type tgen struct {
-	s      model.Schema
-	keys   []model.Item
-	ixVals map[string][]model.AV
-	o      gen.AVOpts
-	maxAttrs int
+	s                  model.Schema
+	keys               []model.Item
+	ixVals             map[string][]model.AV
+	o                  gen.AVOpts
+	maxAttrs           int
 	wrongTypeIndexKeys bool // sometimes give an index key attribute the wrong type
 }
 
